@@ -889,6 +889,12 @@ where
                 "Configuration changed"
             );
 
+            // `send_buf` is sized after `max_packet_size` and `send_message`
+            // relies on that
+            if self.config.max_packet_size != config.max_packet_size {
+                self.send_buf = Vec::with_capacity(config.max_packet_size.get());
+            }
+
             self.config = config;
             Ok(())
         }
